@@ -90,28 +90,31 @@ def rule_step(ctx, repo):
         ok, wit = s.before(sv, [loop])
         ctx.check(ok, "C04.restore", "step/save-%s" % arr, "tds.%s0[:] = dae.%s dominates the Newton loop" % (arr, arr),
                   "start-of-step %s is not saved before iterating: %s" % (arr, wit), s.W())
-    # --- restore on every non-converged exit
-    tests = s.tests(lambda c: c.strip() == "not tds.converged")
-    ok = bool(tests)
-    if ok:
+    # --- restore on every non-converged exit.  Decided on truth tables: the restore statements can only be reached with
+    # `tds.converged` False, and every test that splits on that flag after the loop sends its not-converged branch through them
+    flag = "tds.converged"
+    tests = [t for t in g.nodes() if g.data(t)["kind"] == "test" and g.data(t)["expr"] and Q.forced_label(g.data(t)["expr"][0], flag, False)
+             and g.reachable(loop, t) and not g.reachable(t, loop)]
+    if tests:
         t = tests[0]
-        okp, wit = s.after([loop], [t])
+        lab = Q.forced_label(g.data(t)["expr"][0], flag, False)
         for arr in ("x", "y", "f"):
             rs = [n for n in g.nodes() if g.data(n)["kind"] == "stmt" and (
                 Q.match("dae.%s[:] = np.array(tds.%s0)" % (arr, arr), g.data(n)["ast"]) or
-                Q.match("dae.%s[:] = tds.%s0" % (arr, arr), g.data(n)["ast"]))]
-            rs = [n for n in rs if g.guarded_by(n, t, "true")]
-            # every path from the true edge of the test to exit passes the restore
-            okr = bool(rs) and all(g.must_pass(m, g.exit, rs)[0] or m in rs for m in g.succ_label(t, "true"))
-            ctx.check(okp and okr, "C04.restore", "step/restore-%s" % arr,
+                Q.match("dae.%s[:] = tds.%s0" % (arr, arr), g.data(n)["ast"]) or
+                Q.match("dae.%s[:] = tds.%s0[:]" % (arr, arr), g.data(n)["ast"]) or
+                Q.match("np.copyto(dae.%s, tds.%s0)" % (arr, arr), g.data(n)["ast"]))]
+            rs = [n for n in rs if Q.sat_atom_values(fn, g.data(n)["ast"], flag) == {False}]
+            okr = bool(rs) and all(g.must_pass(m, g.exit, rs)[0] or m in rs for m in g.succ_label(t, lab))
+            ctx.check(okr, "C04.restore", "step/restore-%s" % arr,
                       "dae.%s restored from %s0 on every non-converged exit" % (arr, arr),
-                      "a rejected step can leave dae.%s modified (no slice-restore from tds.%s0 on the non-converged path)" % (arr, arr),
+                      "a rejected step can leave dae.%s modified (no restore from tds.%s0 on the non-converged path)" % (arr, arr),
                       s.W(t))
-        v2m = [n for n in s.calls("system.vars_to_models") if g.guarded_by(n, t, "true")]
+        v2m = [n for n in s.calls("system.vars_to_models") if Q.sat_atom_values(fn, g.data(n)["ast"], flag) == {False}]
         ctx.check(bool(v2m), "C04.restore", "step/restore-models", "vars_to_models() after restoring",
                   "restored values are not propagated to the models", s.W(t))
     else:
-        ctx.violation("C04.restore", "step/restore", "no `if not tds.converged` restore block after the Newton loop", s.W())
+        ctx.violation("C04.restore", "step/restore", "no test on `tds.converged` after the Newton loop whose not-converged branch restores the state", s.W())
     # zero step refused before touching state
     z = s.tests(lambda c: c.replace(" ", "") == "tds.h==0")
     ok = bool(z) and any(g.guarded_by(r, z[0], "true") for r in s.returns(lambda v: src(v) == "False"))
@@ -198,15 +201,33 @@ def rule_step(ctx, repo):
                                         Q.match("$mis <= tds.config.tol", d["ast"].test, e) or
                                         Q.match("abs($mis) < tds.config.tol", d["ast"].test, e)):
                 tol_tests.append(tn)
-    chat_tests = s.tests(lambda c: c.strip() == "tds.chatter")
+    # decided on truth tables: an assignment `tds.converged = True` is reachable only if the bare-tolerance test holds or the documented
+    # chattering escape is taken (`tds.chatter`); with both false its enclosing conditions are unsatisfiable
+    tolpats = ()
+    if e is not None:
+        m_ = src(e["mis"])
+        # canonical forms (a <= b is read as not b < a)
+        tolpats = ("tds.config.tol < abs(%s)" % m_, "tds.config.tol < %s" % m_, "abs(%s) < tds.config.tol" % m_)
     n_tol = n_chat = n_other = 0
     for st in sets:
-        if any(g.guarded_by(st, t, "true") for t in tol_tests):
-            n_tol += 1
-        elif any(g.guarded_by(st, t, "true") for t in chat_tests):
-            n_chat += 1     # frozen exception: documented chattering escape
-        else:
+        sa = Q.sat_assignments(fn, g.data(st)["ast"], [tolpats or ("__none__",), "tds.chatter"]) or set()
+        # first atom: True means `tol < |mis|` (test failed) for the first two patterns; the strict form `|mis| < tol` is True when passed
+        passed = set()
+        for av in sa:
+            tol_ok = None
+            pc_src = " ".join(src(t_) for t_, _ in (Q.path_condition(fn, g.data(st)["ast"]) or []))
+            strict = ("abs(%s) < tds.config.tol" % (src(e["mis"]) if e else "?")) in pc_src
+            tol_ok = av[0] if strict else (not av[0])
+            passed.add((tol_ok, av[1]))
+        if (False, False) in passed or not passed:
             n_other += 1
+        elif any(p[0] for p in passed) and not any((not p[0]) and p[1] for p in passed):
+            n_tol += 1
+        elif all(p[0] or p[1] for p in passed):
+            if any(p[0] for p in passed):
+                n_tol += 1
+            if any((not p[0]) and p[1] for p in passed):
+                n_chat += 1     # frozen exception: documented chattering escape
     ctx.check(ok_chain and n_tol >= 1 and n_other == 0, "C04.accept", "step/converged",
               "converged=True only under |max increment| <= bare config.tol (exception: tds.chatter escape, %d site)" % n_chat,
               "a step can be accepted without the bare-tolerance test on the max-abs increment "
@@ -320,16 +341,17 @@ def rule_stepsize(ctx, repo):
     import itertools
     bad, n_cases, undec = [], 0, None
     T0 = 1.0
-    for D, left_tf, left_ev, has_ev in itertools.product((1.0, 2.0, 3.0), (-1.0, 0.0, 0.5, 1.0, 1.5, 2.0, 2.5, 3.0, 3.5),
-                                                         (0.5, 1.0, 1.5, 2.0, 2.5, 3.0, 3.5), (True, False)):
+    for D, left_tf, left_ev, has_ev, resume in itertools.product((1.0, 2.0, 3.0), (-1.0, 0.0, 0.5, 1.0, 1.5, 2.0, 2.5, 3.0, 3.5),
+                                                                 (0.5, 1.0, 1.5, 2.0, 2.5, 3.0, 3.5), (True, False), (False, True)):
         state = {"self.system.dae.t": T0, "self.config.tf": T0 + left_tf, "self.config.t0": 0.0, "self.config.fixt": 1, "self.config.shrinkt": 1,
                  "self.config.tstep": D, "self.converged": True, "self.niter": 3, "self.deltat": D, "self.deltatmax": 100.0, "self.deltatmin": 1e-3,
                  "self._switch_idx": 0, "self.system.n_switches": 1 if has_ev else 0, "self.system.switch_times": T0 + left_ev,
-                 "self.data_csv": None, "self.chatter": False, "self.busted": False, "self.err_msg": "", "self.h": 0.0, "resume": False,
+                 "self.data_csv": None, "self.chatter": False, "self.busted": False, "self.err_msg": "", "self.h": 0.0, "resume": resume,
                  "self.k_csv": 0, "self.system": 0, "self.config": 0, "self.system.dae": 0}
-        mi = MethodInterp(repo, "TDS", TDS, state, skip_calls=("_calc_h_first",))
+        # the first step of a fresh or resumed run is proposed by _calc_h_first (not interpreted: it returns the proposal D)
+        mi = MethodInterp(repo, "TDS", TDS, state, call_values={"_calc_h_first": D})
         try:
-            mi.call_in("TDS", "calc_h", kwargs={"resume": False})
+            mi.call_in("TDS", "calc_h", kwargs={"resume": resume})
         except Unsupported as ex:
             undec = str(ex)
             break
@@ -337,8 +359,8 @@ def rule_stepsize(ctx, repo):
         h = mi.s.get("self.h")
         want = max(min([D, left_tf] + ([left_ev] if has_ev else [])), 0.0)
         if h is None or abs(float(h) - want) > 1e-12:
-            bad.append("proposed step %g, %g left to tf, %s: h = %s, expected %g" % (
-                D, left_tf, ("next event in %g" % left_ev) if has_ev else "no pending event", h, want))
+            bad.append("%sproposed step %g, %g left to tf, %s: h = %s, expected %g" % (
+                "resumed run, " if resume else "", D, left_tf, ("next event in %g" % left_ev) if has_ev else "no pending event", h, want))
     if undec:
         ctx.undecided("C04.stepsize", "TDS.calc_h/clip", "interpreter: %s" % undec, f.W())
     else:
@@ -361,18 +383,12 @@ def rule_run_loop(ctx, repo):
     if not st:
         raise AnalysisError("TDS.run: `if step_status` vanished")
     t = st[0]
-    # rejected step: t -= h ; calc_h ; (h == 0 -> busted) ; t += h
-    back = [n for n in g.nodes() if g.data(n)["kind"] == "stmt" and Q.match("dae.t -= self.h", g.data(n)["ast"])
-            and g.guarded_by(n, t, "false")]
+    # rejected step: the clock goes back to where the step started (only if it was advanced), calc_h, advance again: rules/c04_rollback.py
+    from rules import c04_rollback
+    c04_rollback.run_rule(ctx, repo)
     ch = [n for n in r.calls("self.calc_h") if g.guarded_by(n, t, "false")]
-    fwd = [n for n in tdscommon.clock_nodes(repo, r) if g.guarded_by(n, t, "false")]
-    ok = bool(back and ch and fwd)
-    if ok:
-        ok = g.must_pass(g.succ_label(t, "false")[0], ch[0], back)[0] or g.succ_label(t, "false")[0] in back
-        ok = ok and g.must_pass(ch[0], fwd[0], [])[0] is False   # fwd reachable after calc_h
-        ok = ok and not g.reachable(fwd[0], ch[0], avoid=[x for x in g.nodes() if g.data(x)["kind"] == "loop"])
-    ctx.check(ok, "C04.restore", "TDS.run/reject-time", "rejected step: t -= h, calc_h(), t += h (new h)",
-              "time is not rewound before the retry of a rejected step", r.W(t))
+    ctx.check(bool(ch), "C04.restore", "TDS.run/reject-time", "a rejected step re-computes the step size before the retry",
+              "the rejected-step branch no longer calls calc_h()", r.W(t))
     z = [tn for tn in g.nodes() if g.data(tn)["kind"] == "test" and Q.match("self.h == 0", g.data(tn)["ast"].test)
          and g.guarded_by(tn, t, "false")]
     okz = bool(z) and any(g.guarded_by(n, z[0], "true") for n in r.assigns("self.busted"))
@@ -406,6 +422,7 @@ def run(ctx):
              "on rejection; zero step refused", 10)
     ctx.rule("C04.stepsize", "abstract interpretation of calc_h: under fixt=1 deltat <= tstep at h := deltat; calc_h interpreted on every ordering "
              "of (proposed step, time to tf, time to the next event): h == max(min(...), 0)", 6)
+    ctx.rule("C04.rollback", "the clock is moved back only if it was advanced for the rejected attempt (path or typestate attribute); re-advanced before the retry", 2)
     ctx.rule("C04.accept", "converged=True only under |max increment| <= bare tol (chatter escape frozen); failure exits", 3)
     ctx.assume("per-step residual satisfaction, convergence order and reaching tf are numerical: declined")
     ctx.assume("kvxopt sparse([[a,b],[c,d]]) = block columns; Teye = diag(Tf)")
